@@ -490,7 +490,8 @@ fn main() {
     if args.len() >= 3 && args[1] == "--one" {
         let text = std::fs::read_to_string(&args[2]).expect("cannot read job file");
         let v: Value = serde_json::from_str(&text).expect("bad json");
-        let job = if v.get("job").is_some() { v["job"].clone() } else { v };
+        let mut job = if v.get("job").is_some() { v["job"].clone() } else { v };
+        job["progress"] = json!(false);
         let h = std::thread::Builder::new()
             .stack_size(stack_mb << 20)
             .spawn(move || run_job(&job))
